@@ -59,6 +59,8 @@ def strategy_(draw, tier):
     case["batch"] = draw(st.integers(1, 3))
     case["choices"] = draw(schedule())
     case["kind"] = "sim"
+    # machines with fewer CPUs than --cores: the request is capped (with a warning), the output is the same
+    case["cpu"] = draw(st.sampled_from([64, 64, 64, 1, 2, 3]))
     case["via"] = draw(st.sampled_from(["api", "api", "api", "cli", "cli_stdout"]))
     if draw(st.integers(0, 3)) == 0:
         # all workers descheduled (or one slow alignment): up to 150 consecutive empty polls, starting at a drawn poll
@@ -116,13 +118,15 @@ def run_case(case):
                        case["cores"], case["batch"] or "default", res[1])
             check_output(case, res, text, ref, "real processes, cores=%d batch=%s" % (case["cores"], case["batch"] or "default"))
             return core.Result(case["cores"] >= 2, ["real_processes", "cores=%d" % case["cores"]])
-        plat = fakemp.Platform(fakemp.Chooser(case["choices"]), stall=case.get("stall"))
+        plat = fakemp.Platform(fakemp.Chooser(case["choices"]), stall=case.get("stall"), cpu=case.get("cpu", 64))
         res, text = rc.run_realign(case, d, platform=plat, sub="sim.gaf", via=case.get("via", "api"))
         check_output(case, res, text, ref, "cores=%d batch=%d schedule=%s" % (case["cores"], case["batch"], case["choices"][:40]))
     nrec = len(case["gaf"])
     nworkers = len(plat.procs)
     groups = len(plat.queues)
     cl = ["cores=%d" % case["cores"], "workers=%s" % (nworkers if nworkers < 4 else ">=4"), "via:" + case.get("via", "api")]
+    if case["cores"] > case.get("cpu", 64):
+        cl.append("cores>cpu_count")
     if plat.timeouts:
         cl.append("timeout")
     if plat.timeouts_in_flight:
@@ -203,6 +207,21 @@ def enumerations(tier, shard, nshards):
                 c["kind"] = "real"
                 c["batch"] = 0  # the production batch size (1000): all 900 records in one worker, > 64 KiB of results in flight
                 yield c
+
+        def odd():
+            import os as _os
+
+            n = 301
+            for cores in (3, (_os.cpu_count() or 1) + 1):
+                c = tiny_case(2, cores, 0)
+                c["gaf"] = [TINY_GAF[i % 2].replace("ra\t", "v%d\t" % i).replace("rb\t", "v%d\t" % i) for i in range(n)]
+                c["fasta"] = "".join(">v%d\n%s\n" % (i, "GTACGTAAGGCA" if i % 2 == 0 else "GGCAATTAC") for i in range(n))
+                c["kind"] = "real"
+                c["batch"] = 0
+                yield c
+
+        yield ("real multiprocessing: 301 records (one incomplete default-size batch) with 3 cores and with one core more than the machine has",
+               odd(), True)
 
         yield ("real multiprocessing: 900 records in a single default-size batch (results exceed the pipe buffer), cores 1 and 2",
                bigbatch(), True)
